@@ -25,6 +25,7 @@ import (
 	"github.com/apache/skywalking-banyandb/api/common"
 	databasev1 "github.com/apache/skywalking-banyandb/api/proto/banyandb/database/v1"
 	modelv1 "github.com/apache/skywalking-banyandb/api/proto/banyandb/model/v1"
+	"github.com/apache/skywalking-banyandb/pkg/convert"
 	"github.com/apache/skywalking-banyandb/pkg/index"
 	"github.com/apache/skywalking-banyandb/pkg/index/posting"
 	"github.com/apache/skywalking-banyandb/pkg/query/logical"
@@ -188,8 +189,13 @@ func (tef *traceEqFilter) Execute(_ index.GetSearcher, _ common.SeriesID, _ *ind
 
 func (tef *traceEqFilter) ShouldSkip(tagFilters index.FilterOp) (bool, error) {
 	// Use the parsed expression to get the tag value and invoke tagFilters.Eq
+	// The block filters hold the stored (marshalled) form of the tag values, which for an integer is its
+	// 8-byte encoding, not the decimal text of the literal.
 	if tef.expr != nil {
 		tagValue := tef.expr.String()
+		if bb := tef.expr.Bytes(); len(bb) == 1 {
+			tagValue = convert.BytesToString(bb[0])
+		}
 		return !tagFilters.Eq(tef.tagName, tagValue), nil
 	}
 	return false, nil
@@ -269,11 +275,12 @@ func (thf *traceHavingFilter) Execute(_ index.GetSearcher, _ common.SeriesID, _ 
 
 func (thf *traceHavingFilter) ShouldSkip(tagFilters index.FilterOp) (bool, error) {
 	// Use the parsed expression to get the tag values and invoke tagFilters.Having
+	// As for EQ: the elements of the literal are probed in their stored form (8 bytes for an integer).
 	if thf.expr != nil {
-		subExprs := thf.expr.SubExprs()
-		tagValues := make([]string, len(subExprs))
-		for i, subExpr := range subExprs {
-			tagValues[i] = subExpr.String()
+		bb := thf.expr.Bytes()
+		tagValues := make([]string, len(bb))
+		for i := range bb {
+			tagValues[i] = convert.BytesToString(bb[i])
 		}
 		return !tagFilters.Having(thf.tagName, tagValues), nil
 	}
